@@ -2,7 +2,7 @@ SPECIFICATION Spec
 CONSTANTS
   Denoms = {"aISLM", "utest"}
   BondDenom = "aISLM"
-  MaxLen = 5
+  MaxLen = 4
   Amt = "215"
   ValStake = "1000"
   PowerReduction = "1"
@@ -11,11 +11,11 @@ CONSTANTS
   BurnVeto = TRUE
   BurnPrevote = TRUE
   BurnQuorum = FALSE
-  ParamKeys = {"sendDefault", "send", "tax", "burnVeto", "burnPrevote", "burnQuorum", "minDep", "erc20"}
-  MaxParamChanges = 1
+  ParamKeys = {}
+  MaxParamChanges = 0
   Seeded = TRUE
-  Networks = {"main"}
-  Heights0 = {1}
+  Networks = {"main", "testedge1", "testedge2", "local", "other"}
+  Heights0 = {1, 9}
   Defects = {}
 INVARIANT MInv_P
 INVARIANT MInv_Model
